@@ -159,6 +159,27 @@ func checkMsg(c MsgCase, cv *cov) (v *evid.Violation) {
 			}
 		}
 		r.Recycle()
+		if expectOK {
+			// two messages with different names on one stream reader, then on a recycled reader object: the
+			// names returned first must keep their value
+			other := string(patternBytes(c.Name.S+1, c.Name.L))
+			if c.Name.L == 0 {
+				other = "x"
+			}
+			two := append(append([]byte(nil), refMsgHeader(name, c.Type, c.Seq)...), refMsgHeader(other, c.Type, c.Seq+1)...)
+			br2 := bufiox.NewDefaultReader(faultio.NewScriptReader(two, c.Plan))
+			r2 := thrift.NewBufferReader(br2)
+			n1, _, _, e1 := r2.ReadMessageBegin()
+			n2, _, _, e2 := r2.ReadMessageBegin()
+			r2.Recycle()
+			r3 := thrift.NewBufferReader(bufiox.NewBytesReader(refMsgHeader(other+"y", c.Type, 1)))
+			n3, _, _, e3 := r3.ReadMessageBegin()
+			r3.Recycle()
+			if e1 != nil || e2 != nil || e3 != nil || n1 != name || n2 != other || n3 != other+"y" {
+				v = evid.Failf("BufferReader.ReadMessageBegin: after reading further messages through the same / a recycled reader, the method names are (%q,%q,%q) errs (%v,%v,%v); want (%q,%q,%q)", n1, n2, n3, e1, e2, e3, name, other, other+"y")
+				return
+			}
+		}
 		// a payload struct without any field
 		if c.Empty && c.Word == nil && c.Cut < 0 && name != "" && c.Type != thrift.EXCEPTION {
 			msg, err := thrift.MarshalFastMsg(name, c.Type, c.Seq, (*base.Base)(nil))
@@ -347,3 +368,85 @@ func poisonBufferWriterPool() {
 	_ = pw.WriteString("y")
 	pw.Recycle()
 }
+
+// TestC12_ManyNames: tens of millions of distinct method names of equal length decoded one after the other
+// by both readers; each must come back exactly. (A lossy cache keyed on a digest of the name shows up as a
+// wrong name once two of them collide.)
+func TestC12_ManyNames(t *testing.T) {
+	rec := evid.New("C12", "c12_many_names", "stream of distinct 14- and 9-byte method names (counter-valued) decoded one after the other by Binary.ReadMessageBegin (all) and BufferReader.ReadMessageBegin over a bytes reader (every 8th); every name, type and sequence id compared; distinct by construction; non-trivial = all")
+	defer rec.Flush()
+	n := evid.Pick(50_000_000, 150_000_000)
+	shard, _ := evid.Shard()
+	hdr := refMsgHeader("GetItem0000000", 1, 0)
+	hdr2 := refMsgHeader("m00000000", 2, 0)
+	digits := func(b []byte, x int) {
+		for i := len(b) - 1; i >= 0; i-- {
+			b[i] = byte('0' + x%10)
+			x /= 10
+		}
+	}
+	x := thrift.Binary
+	b := evid.NewBatch()
+	for i := 0; i < n; i++ {
+		h := hdr
+		nameLen := 14
+		if i%4 == 3 {
+			h = hdr2
+			nameLen = 9
+		}
+		name := h[8 : 8+nameLen]
+		// a bijective mix of the counter, so that consecutive names look unrelated
+		z := (uint64(i) + uint64(shard)<<40) * 0x9E3779B97F4A7C15
+		if nameLen == 14 {
+			for j := 0; j < 14; j++ {
+				name[j] = byte('a' + z%26)
+				z /= 26
+			}
+		} else {
+			digits(name[1:], i%100_000_000)
+			name[0] = byte('a' + shard%26)
+		}
+		gn, _, _, l, err := x.ReadMessageBegin(h)
+		if err != nil || l != len(h) || gn != string(name) {
+			failEnum(t, rec, "c12_name_sequence", NameSeqCase{Names: []evid.Hex{[]byte(gn), append([]byte(nil), name...)}}, evid.Failf("Binary.ReadMessageBegin: name #%d decoded as %q, the header carries %q (err %v)", i, gn, name, err))
+			break
+		}
+		if i%8 == 0 {
+			r := thrift.NewBufferReader(bufiox.NewBytesReader(h))
+			sn, _, _, err := r.ReadMessageBegin()
+			r.Recycle()
+			if err != nil || sn != string(name) {
+				failEnum(t, rec, "c12_name_sequence", NameSeqCase{Names: []evid.Hex{[]byte(sn), append([]byte(nil), name...)}}, evid.Failf("BufferReader.ReadMessageBegin: name #%d decoded as %q, the header carries %q (err %v)", i, sn, name, err))
+				break
+			}
+		}
+		b.Evals++
+	}
+	b.Distinct, b.Nontrivial = b.Evals, b.Evals
+	rec.Merge(b)
+	rec.Sample(map[string]interface{}{"names": n, "example": "GetItem0001234", "length": 14})
+}
+
+// NameSeqCase: method names decoded one after the other in one process (replay form of TestC12_ManyNames).
+type NameSeqCase struct {
+	Names []evid.Hex `json:"names"`
+}
+
+func checkNameSeq(c NameSeqCase, cv *cov) *evid.Violation {
+	for round := 0; round < 2; round++ {
+		for i, n := range c.Names {
+			h := refMsgHeader(string(n), 1, int32(i))
+			gn, _, _, _, err := thrift.Binary.ReadMessageBegin(h)
+			r := thrift.NewBufferReader(bufiox.NewBytesReader(h))
+			sn, _, _, err2 := r.ReadMessageBegin()
+			r.Recycle()
+			if err != nil || err2 != nil || gn != string(n) || sn != string(n) {
+				return evid.Failf("name %d of the sequence: the header carries %q, Binary.ReadMessageBegin returned %q (%v), BufferReader.ReadMessageBegin %q (%v)", i, n, gn, err, sn, err2)
+			}
+		}
+	}
+	cv.nontrivial = len(c.Names) >= 2
+	return nil
+}
+
+func init() { register("c12_name_sequence", checkNameSeq) }
